@@ -6,7 +6,7 @@ from typing import Callable, Dict, List, Optional
 
 from .src import AnalysisError, FuncInfo, Repo, norm
 
-OK, VIOLATION, EXCEPTION, INFO = 'ok', 'violation', 'exception', 'info'
+OK, VIOLATION, EXCEPTION, INFO, UNDECIDED = 'ok', 'violation', 'exception', 'info', 'undecided'
 
 
 class Instance:
@@ -63,16 +63,25 @@ class RuleReport:
     def info(self, key, where, msg='', **extra):
         return self.add(key, where, INFO, msg, **extra)
 
-    def oblige(self, name: str, discharged: bool, detail: str = '', where: str = '', key: Optional[str] = None):
-        """A named obligation: recorded for proof-level evidence *and* as an instance."""
+    def undecided(self, key, where, msg='', **extra):
+        """The rule could not recognise what it needs at this site: neither a pass nor a violation."""
+        return self.add(key, where, UNDECIDED, msg, **extra)
+
+    def oblige(self, name: str, discharged: bool, detail: str = '', where: str = '', key: Optional[str] = None,
+               positive: bool = True):
+        """A named obligation: recorded for proof-level evidence *and* as an instance.  positive=False: a
+        failure only means the expected construct was not recognised (undecided, not a violation)."""
         self.obligations.append({'name': name, 'discharged': bool(discharged), 'detail': detail})
-        self.add(key or name, where or self.rule, OK if discharged else VIOLATION, detail)
+        self.add(key or name, where or self.rule, OK if discharged else (VIOLATION if positive else UNDECIDED), detail)
 
     def violations(self) -> List[Instance]:
         return [i for i in self.instances if i.verdict == VIOLATION]
 
+    def undecideds(self) -> List[Instance]:
+        return [i for i in self.instances if i.verdict == UNDECIDED]
+
     def counted(self) -> int:
-        return sum(1 for i in self.instances if i.verdict in (OK, VIOLATION, EXCEPTION))
+        return sum(1 for i in self.instances if i.verdict in (OK, VIOLATION, EXCEPTION, UNDECIDED))
 
 
 RULES: Dict[str, Callable] = {}
@@ -137,6 +146,11 @@ class Ctx:
             if rule_id not in RULES:
                 raise AnalysisError(f'rule {rule_id} is not implemented')
             rep = RULES[rule_id](self)
+            if rep.undecideds() and not rep.violations():
+                # the rule did not recognise the code it is about: fail closed (exit 2), never a violation
+                u = rep.undecideds()
+                raise AnalysisError(f'{rule_id}: {len(u)} site(s) not recognised, e.g. {u[0].where}: {u[0].key}'
+                                    + (f' ({u[0].msg[:140]})' if u[0].msg else ''))
             if rep.counted() < rep.floor and not rep.violations():
                 raise AnalysisError(
                     f'{rule_id}: only {rep.counted()} instance(s) found, floor is {rep.floor} '
